@@ -110,6 +110,15 @@ func judgeOracles(o fsOpts, hist *h.History, m []h.ModelStep, res *result) {
 		if has(o.oracles, "C10") && (st.Res == "stuck" || st.LateWedge) {
 			st.OracleMsgs = append(st.OracleMsgs, fmt.Sprintf("C10\x00%s never returned or left the drive locked for every later call", st.Call.Method))
 		}
+		if has(o.oracles, "C03") && !st.Directive && o.mode == "roundtrip" {
+			// the round-trip generator only writes fresh files and stats them: every call succeeds
+			switch {
+			case st.Res == "stuck" || st.LateWedge:
+				st.OracleMsgs = append(st.OracleMsgs, fmt.Sprintf("C03\x00%s never returned or left the drive locked while writing a file", st.Call.Method))
+			case st.Res != "ok":
+				st.OracleMsgs = append(st.OracleMsgs, fmt.Sprintf("C03\x00%s returned %s while writing a file", st.Call.Method, st.Res))
+			}
+		}
 		if has(o.oracles, "C17") && !st.Directive {
 			// every call the foreign-archive generator issues names an existing member or a fresh
 			// name under an existing directory: on a filesystem it succeeds
